@@ -1592,6 +1592,9 @@ class Chord:
         extension, replacements, additions, removals = self.get_extension_properties()
         four_notes_extensions = ['7', '65', '43', '2']
         three_notes_extensions = ['', '6', '64']
+        if extension == '5':
+            # '5' is the explicit spelling of the root position triad (what I.o(1) builds)
+            extension = ''
 
         if extension in four_notes_extensions:
             index_extension = four_notes_extensions.index(extension)
